@@ -238,7 +238,37 @@ def rule_deep_copy(ctx):
     ctx.covered('R17.3', 'pointers filled by the reader come from malloc/realloc; copy = serialise + init + deserialise', n, floor=9, samples=samples[:4])
 
 
+def rule_no_struct_copies_into_caches(ctx, rule='R17.7'):
+    """R17.7: the coordinate caches of the integrators (ri_whfast.p_jh, ...) are persisted and compared byte for byte.
+    struct reb_particle carries memory addresses (sim, c). The coordinate transformations fill the caches member by
+    member; an assignment of a whole particle into an element of an array parameter copies the addresses along, and a
+    simulation then differs from its own copy in nothing but pointer values. Counted as a positive control: whole-struct
+    reads `const struct reb_particle pi = particles[i]` into locals are fine and must be seen."""
+    tu = cfront.load_tu('transformations.c')
+    n = 0
+    locals_seen = 0
+    for fname in sorted(tu.funcs):
+        fn = tu.func(fname)
+        b = cfront.body(fn)
+        if b is None:
+            continue
+        params = {p_.get('name') for p_ in cfront.params(fn) if '*' in qtype(p_) and 'reb_particle' in qtype(p_)}
+        for e in walk(b):
+            if e.get('kind') == 'VarDecl' and 'init' in e and qtype(e).replace('const', '').strip() == 'struct reb_particle':
+                locals_seen += 1
+            if is_assign(e) and e['opcode'] == '=' and qtype(strip(e['inner'][0])).replace('const', '').strip() == 'struct reb_particle':
+                l0 = strip(e['inner'][0], casts=True)
+                n += 1
+                if l0.get('kind') == 'ArraySubscriptExpr' and render(strip(l0['inner'][0], casts=True)) in params:
+                    ctx.report(rule, '%s:structcopy:%s' % (fname, render(l0)[:30]), 'src/transformations.c:%s %s' % (line_of(e), fname),
+                               '%s = %s copies a whole particle, including its sim / tree-cell pointers, into a coordinate array: the persisted cache then holds memory addresses and a simulation compares unequal to its own copy' % (render(l0), render(e['inner'][1])[:40]))
+    anchor(locals_seen >= 4, 'whole-particle reads into locals in transformations.c (positive control)')
+    ctx.covered(rule, 'coordinate transformations fill particle arrays member by member (no whole-struct stores into array parameters)', n + locals_seen, floor=4)
+
+
 def run(ctx):
+    rule_no_struct_copies_into_caches(ctx)
+    serial.rule_inert_members(ctx, 'R17.8')       # a latch that is not persisted must not steer the copy differently from its source
     from . import c06
     c06.rule_index_growth(ctx)
     c06.rule_counter_update(ctx)         # R06.9: the restored snapshot drops arrays that vanished after the first one           # the restored snapshot is the requested one only if the index holds all of them
